@@ -35,6 +35,28 @@ PROPS = {
         "assumptions": ["Go runtime, net and x/net control-message code are not modelled",
                         "peer is a loopback address: ARP/NDP table lookups return nothing (environment)"],
     },
+    "C08": {
+        "proof_files": ["Proofs/ManagerFacts.v"],
+        "runs": [{"engine": "manager", "args": [], "n_quick": 500, "n_thorough": 40000}],
+        "trivial_tags": [r"^e0/"],
+        "rule": "random scripts (6-30 ops) on the real endpoint.Manager: 1-3 scripted providers x 0-3 endpoints, probe health flips incl. "
+                "network-unreachable, provider errors (plain/unreachable), clock advances through the manager's testNow hook, queries whose "
+                "actions block until the script ends them (success/failure), background elections held at a gate in the first provider "
+                "until the script runs them; compared after every op: active endpoint, interval, testing latch, error count, last-test age, "
+                "and the full ordered log of probes, OnChange/OnError/OnProviderError callbacks and endpoint used per query; each script runs "
+                "in its own process (a crash is attributed to it). non-trivial = at least one background election ran",
+        "assumptions": ["an election is atomic with respect to query starts (it holds Manager.mu; starting queries wait on RLock)",
+                        "Go mutex hand-off is FIFO for the (at most two) waiting elections the scripts create"],
+    },
+    "C09": {
+        "proof_files": ["Proofs/ManagerFacts.v", "Mutants/ManagerLock.v"],
+        "runs": [{"engine": "manager", "args": [], "n_quick": 500, "n_thorough": 40000}],
+        "trivial_tags": [r"^e0/"],
+        "rule": "same scripts as C08, judged additionally by the deadlock watchdog (a Do / election that does not complete within 2 s "
+                "while the script expects it) and by process crashes; script 0 is the corpus case bootstrap-with-unreachable-provider "
+                "followed by a second query (F2)",
+        "assumptions": ["fair scheduling by the Go runtime for progress", "real probes and HTTP transports replaced by scripted ones"],
+    },
     "C10": {
         "proof_files": ["Proofs/ConfigFacts.v"],
         "runs": [{"engine": "forwarder", "args": [], "n_quick": 600, "n_thorough": 60000, "netns": True}],
